@@ -313,7 +313,10 @@ func (e *Eff) step(st *effFn) bool {
 					}
 				}
 			case *ssa.Phi:
-				for _, ed := range x.Edges {
+				for i, ed := range x.Edges {
+					if nilOnEdge(x, i) {
+						continue // `if s != nil { s = &copy }; return s`: on the other way in s is nil and refers to nothing
+					}
 					ch = st.rootsOf(x).addAll(st.valRoots(ed)) || ch
 				}
 			case *ssa.Slice:
@@ -1190,4 +1193,53 @@ func constBool(v ssa.Value) (bool, bool) {
 		return false, false
 	}
 	return constant.BoolVal(c.Value), true
+}
+
+// nilOnEdge: the value the phi receives on its i-th edge was tested against nil by the branch that leads to that edge
+// (directly, or one jump-only block earlier), and the edge is the "is nil" side.
+func nilOnEdge(phi *ssa.Phi, i int) bool {
+	b := phi.Block()
+	if i >= len(b.Preds) {
+		return false
+	}
+	v := phi.Edges[i]
+	if !pointerLike(v.Type()) {
+		return false
+	}
+	if _, isK := v.(*ssa.Const); isK {
+		return false
+	}
+	to, from := b, b.Preds[i]
+	for hop := 0; hop < 2; hop++ {
+		if iff, ok := from.Instrs[len(from.Instrs)-1].(*ssa.If); ok && len(from.Succs) == 2 && from.Succs[0] != from.Succs[1] {
+			bo, ok := iff.Cond.(*ssa.BinOp)
+			if !ok || (bo.Op != token.EQL && bo.Op != token.NEQ) {
+				return false
+			}
+			var other ssa.Value
+			switch {
+			case bo.X == v:
+				other = bo.Y
+			case bo.Y == v:
+				other = bo.X
+			default:
+				return false
+			}
+			k, isK := other.(*ssa.Const)
+			if !isK || !k.IsNil() {
+				return false
+			}
+			nilSucc := from.Succs[0]
+			if bo.Op == token.NEQ {
+				nilSucc = from.Succs[1]
+			}
+			return nilSucc == to
+		}
+		// a block that only jumps on, entered from one place
+		if _, isJ := from.Instrs[len(from.Instrs)-1].(*ssa.Jump); !isJ || len(from.Instrs) != 1 || len(from.Preds) != 1 {
+			return false
+		}
+		to, from = from, from.Preds[0]
+	}
+	return false
 }
